@@ -234,3 +234,97 @@ def earley_tags(g, word):
             if len(done) >= 2:
                 tags.add("item_advanced_twice")
     return sorted(tags)
+
+
+# ----------------------------------------------------------------------------------------
+# oracle validation against the repository's own test fixtures (DESIGN 2.4): selftest_*() raise
+# AssertionError on disagreement. (`vf selfcheck` calls every `check_*` name of the modules it lists, so
+# these are deliberately not named check_*: a module `vlib/oracles/selfcheck_trees.py` importing them as
+# check_* wires them in.)
+
+def _fixture_expr_grammar():
+    from vlib.oracles.cfg import G, V, T
+    e, e2, t, t2, f = "E", "E’", "T", "T’", "F"
+    return G(e, [(e, (V(t), V(e2))), (e2, (T("+"), V(t), V(e2))), (e2, ()),
+                 (t, (V(f), V(t2))), (t2, (T("*"), V(f), V(t2))), (t2, ()),
+                 (f, (T("("), V(e), T(")"))), (f, (T("id"),))])
+
+
+def _forms(text):
+    """'E | T E’ | ...' -> list of forms; names in the grammar's variable set are variables."""
+    variables = {"E", "E’", "T", "T’", "F", "S", "A", "B", "C"}
+    out = []
+    for part in text.split("|"):
+        out.append([("V", x) if x in variables else ("T", x) for x in part.split()])
+    return out
+
+
+def selftest_llone_derivations():
+    """test_llone_parser.py: the asserted leftmost / rightmost derivations of id + id * id are accepted,
+    each with the other strategy's checker rejects, and a tampered listing rejects."""
+    g = _fixture_expr_grammar()
+    w = ["id", "+", "id", "*", "id"]
+    left = _forms("E | T E’ | F T’ E’ | id T’ E’ | id E’ | id + T E’ | id + F T’ E’ | id + id T’ E’ | "
+                  "id + id * F T’ E’ | id + id * id T’ E’ | id + id * id E’ | id + id * id")
+    right = _forms("E | T E’ | T + T E’ | T + T | T + F T’ | T + F * F T’ | T + F * F | T + F * id | "
+                   "T + id * id | F T’ + id * id | F + id * id | id + id * id")
+    assert check_derivation(left, g, "E", w, True) == []
+    assert check_derivation(right, g, "E", w, False) == []
+    assert check_derivation(left, g, "E", w, False) != []
+    assert check_derivation(right, g, "E", w, True) != []
+    assert check_derivation(left[:-1], g, "E", w, True) != []
+    assert check_derivation(left[:3] + left[4:], g, "E", w, True) != []
+    assert check_derivation(left, g, "E", w[:-1], True) != []
+
+
+def selftest_cnf_derivations():
+    """test_cfg.py test_get_leftmost_derivation / test_get_rightmost_derivation / test_derivation_empty."""
+    from vlib.oracles.cfg import G, V, T
+    g = G("S", [("S", (V("C"), V("B"))), ("C", (V("A"), V("A"))), ("A", (T("a"),)), ("B", (T("b"),))])
+    w = ["a", "a", "b"]
+    assert check_derivation(_forms("S | C B | A A B | a A B | a a B | a a b"), g, "S", w, True) == []
+    assert check_derivation(_forms("S | C B | C b | A A b | A a b | a a b"), g, "S", w, False) == []
+    assert check_derivation(_forms("S | C B | C b | A A b | A a b | a a b"), g, "S", w, True) != []
+    assert check_derivation(_forms("S | C B | A A B | a a B | a a b"), g, "S", w, True) != []
+    tree = (V("S"), [(V("C"), [(V("A"), [(T("a"), [])]), (V("A"), [(T("a"), [])])]), (V("B"), [(T("b"), [])])])
+    assert check_tree(tree, g, "S", w) == []
+    assert check_tree(tree, g, "S", ["a", "b", "a"]) != []
+    assert check_tree(tree, g, "C", w) != []
+    swapped = (V("S"), [tree[1][1], tree[1][0]])
+    assert check_tree(swapped, g, "S", ["b", "a", "a"]) != []
+    g0 = G("S", [("S", ())])
+    assert check_derivation([[V("S")], []], g0, "S", [], False) == []
+    assert check_tree((V("S"), []), g0, "S", []) == []
+    assert check_tree((V("S"), [(("E", "epsilon"), [])]), g0, "S", []) == []
+    assert check_tree((V("S"), []), g, "S", []) != []
+
+
+def selftest_library_trees():
+    """The trees the library returns on its own test fixtures are accepted (LL(1) expression grammar,
+    recursive-descent grammar of test_recursive_decent_parser.py)."""
+    from pyformlang.cfg import CFG
+    from pyformlang.cfg.llone_parser import LLOneParser
+    from pyformlang.cfg.recursive_decent_parser import RecursiveDecentParser
+    from vlib.oracles import cfg as OC
+    cfg = CFG.from_text("""
+        E  -> T E’
+        E’ -> + T E’ | Є
+        T  -> F T’
+        T’ -> * F T’ | Є
+        F  -> ( E ) | id
+    """, start_symbol="E")
+    w = ["id", "+", "id", "*", "id"]
+    tree = tree_to_plain(LLOneParser(cfg).get_llone_parse_tree(w))
+    assert check_tree(tree, OC.extract(cfg), "E", w) == []
+    assert check_tree(tree, _fixture_expr_grammar(), "E", w) == []
+    cfg2 = CFG.from_text("""
+        E -> S + S
+        E -> S * S
+        S -> ( E )
+        S -> int
+    """)
+    w2 = ["(", "int", "+", "(", "int", "*", "int", ")", ")"]
+    t2 = RecursiveDecentParser(cfg2).get_parse_tree(w2)
+    g2 = OC.extract(cfg2)
+    assert check_tree(tree_to_plain(t2), g2, "S", w2) == []
+    assert check_derivation([plain_form(f) for f in t2.get_leftmost_derivation()], g2, "S", w2, True) == []
